@@ -236,13 +236,14 @@ class _Generator(Generator):
 
             encode_lines.append('encoder_append_bool(encoder_p, false);')
 
-            if len(type_.additions) > 0:
-                unique_extension_present = \
-                    self.add_unique_decode_variable('bool {};', 'extension_is_present')
-                decode_lines.append(
-                    'extension_is_present = decoder_read_bool(decoder_p);')
-            else:
-                decode_lines.append('decoder_read_bool(decoder_p);')
+            # Extension additions can not be decoded. Remember the
+            # extension bit to reject such data, as the additions would
+            # otherwise be decoded as the following members.
+            unique_extension_present = \
+                self.add_unique_decode_variable('bool {};', 'extension_is_present')
+            decode_lines.append(
+                '{} = decoder_read_bool(decoder_p);'.format(
+                    unique_extension_present))
 
         for member in type_.root_members:
 
@@ -308,7 +309,7 @@ class _Generator(Generator):
             encode_lines += member_encode_lines
             decode_lines += member_decode_lines
 
-        if type_.additions is not None and len(type_.additions) > 0:
+        if type_.additions is not None:
             decode_lines.append('if({}) {{'.format(unique_extension_present))
             decode_lines.append('    decoder_abort(decoder_p, EINVAL);')
             decode_lines.append('    return;')
